@@ -39,7 +39,7 @@ ASSUMPTIONS = [
     'wavelengths within 1e-6 relative of the 2000 A threshold are not generated, except exactly 2000.0 in Angstrom (astropy converts 200 nm to 1999.9999999999998 A, as the repository tests note)',
     'float64 data; float32 arrays are outside the 1e-12 correspondence tolerance',
     'filter_thru: every trace keeps at least two unmasked pixels (djs_maskinterp returns the input row unchanged when every pixel is '
-    'masked, so nothing can be independent of masked values there); wavelength solutions are monotone in pixel',
+    'masked, so nothing can be independent of masked values there); wavelength solutions are monotone in pixel, increasing or decreasing',
     'round-trip theorem and checks cover 2000 A .. 30 um (3e5 A); below 2000 A both functions are the identity',
 ]
 
@@ -338,24 +338,28 @@ def check_flux(ctx, viol):
 # filter_thru
 # ----------------------------------------------------------------------------
 
-def gen_filter_job(ctx, small):
+def gen_filter_job(ctx, small, direction=None, wave=None):
     rng = ctx.rng
     nT = rng.randint(1, 3)
     nx = rng.randint(24, 48) if small else rng.randint(300, 1200)
     kind = rng.choice(['full', 'full', 'blue', 'red', 'outside'])
     lam_lo, lam_hi = {'full': (3000.0, 11000.0), 'blue': (3000.0, 5200.0), 'red': (6500.0, 11500.0), 'outside': (12000.0, 20000.0)}[kind]
+    direction = direction or rng.choice(['blue-to-red', 'blue-to-red', 'red-to-blue'])
     loglam0, dloglam = [], []
     for _ in range(nT):
         lo = lam_lo * rng.uniform(1.0, 1.1)
         hi = lam_hi * rng.uniform(0.9, 1.0)
         l0 = round(math.log10(lo) * 4096) / 4096
         dl = round((math.log10(hi) - l0) / (nx - 1) * 2 ** 24) / 2 ** 24
+        if direction == 'red-to-blue':
+            # wavelength DECREASES with pixel index (spectrum stored red to blue)
+            l0, dl = l0 + dl * (nx - 1), -dl
         loglam0.append(l0)
         dloglam.append(dl)
     flux = [C.dyadic(rng, -2, 30, 6) for _ in range(nT * nx)]
     flux2 = [C.dyadic(rng, -10, 10, 6) for _ in range(nT * nx)]
     job = {'op': 'filter', 'nT': nT, 'nx': nx, 'flux': flux, 'flux2': flux2, 'loglam0': loglam0, 'dloglam': dloglam,
-           'wave': rng.choice(['waveimg', 'waveimg', 'wset']), 'toair': rng.random() < 0.3,
+           'wave': wave or rng.choice(['waveimg', 'waveimg', 'wset']), 'toair': rng.random() < 0.3, 'direction': direction,
            'a': C.dyadic(rng, -3, 3, 4), 'b': C.dyadic(rng, -3, 3, 4), 'c': C.dyadic(rng, -5, 50, 4),
            'mask': None, 'return_weights': small, 'cover': kind}
     if rng.random() < 0.6:
@@ -380,7 +384,12 @@ def gen_filter_job(ctx, small):
 
 
 def check_filter(ctx, viol):
-    jobs = [gen_filter_job(ctx, True) for _ in range(ctx.n(8, 40))] + [gen_filter_job(ctx, False) for _ in range(ctx.n(8, 60))]
+    jobs = [gen_filter_job(ctx, True) for _ in range(ctx.n(6, 40))] + [gen_filter_job(ctx, False) for _ in range(ctx.n(6, 60))]
+    # both storage orders with both kinds of wavelength solution, every run
+    for direction in ('blue-to-red', 'red-to-blue'):
+        for wave in ('waveimg', 'wset'):
+            jobs.append(gen_filter_job(ctx, True, direction, wave))
+            jobs.append(gen_filter_job(ctx, False, direction, wave))
     nb = min(C.NPROC, len(jobs))
     outs = C.run_impl_parallel('c19_impl.py', [jobs[k::nb] for k in range(nb)])
     results = [None] * len(jobs)
@@ -391,7 +400,7 @@ def check_filter(ctx, viol):
     nband = 0
     cover = {}
     for ji, (job, r) in enumerate(zip(jobs, results)):
-        small_in = {k: job[k] for k in ('nT', 'nx', 'loglam0', 'dloglam', 'wave', 'toair', 'a', 'b', 'c', 'cover')}
+        small_in = {k: job[k] for k in ('nT', 'nx', 'loglam0', 'dloglam', 'wave', 'toair', 'a', 'b', 'c', 'cover', 'direction')}
         small_in['masked'] = job['mask'] is not None
         rep0 = {'kind': 'failing-input', 'input': small_in, 'job': job if job['nx'] <= 60 else None, 'seed_note': 'regenerate with the same VERIF_SEED'}
         if 'err' in r:
@@ -403,6 +412,23 @@ def check_filter(ctx, viol):
             continue
         if not r['input_unchanged']:
             viol('C19:filter_thru:input-modified', 'filter_thru modified its flux argument', rep0, True)
+        # checks that need no recorded weights: a band either does not overlap (constant spectrum -> exactly 0) or returns the
+        # constant, lies within the unmasked flux range, is linear and ignores masked values
+        for t in range(nT):
+            for i in range(5):
+                v1, v2, v3, vc = r['res'][t][i], r['res2'][t][i], r['res_lin'][t][i], r['res_const'][t][i]
+                rep = dict(rep0, trace=t, band='ugriz'[i], values={'f': v1, 'g': v2, 'a*f+b*g': v3, 'const': vc})
+                if not all(isnum(v) for v in (v1, v2, v3, vc)):
+                    viol('C19:filter_thru:nonfinite', 'filter_thru returns a non-finite value (trace %d band %s)' % (t, 'ugriz'[i]), rep, True)
+                    continue
+                c0 = job['c']
+                if vc != 0.0 and abs(vc - c0) > 1e-9 * max(1.0, abs(c0)):
+                    viol('C19:filter_thru:constant', 'constant spectrum %r gives %r in band %s (%s wavelength solution, %s)'
+                         % (c0, vc, 'ugriz'[i], job.get('direction'), job['wave']), rep, True)
+                lo, hi = r.get('good_min', [None] * nT)[t], r.get('good_max', [None] * nT)[t]
+                if vc != 0.0 and lo is not None and (v1 < lo - 1e-9 * (1 + abs(lo)) or v1 > hi + 1e-9 * (1 + abs(hi))):
+                    viol('C19:filter_thru:bounds', 'band %s result %r outside [min, max] = [%r, %r] of the unmasked flux (%s wavelength solution)'
+                         % ('ugriz'[i], v1, lo, hi, job.get('direction')), rep, True)
         if not r.get('weights_recorded'):
             viol('C19:filter_thru:weights', 'could not record the weights of filter_thru (np.interp / np.absolute no longer used as expected)',
                  {'kind': 'broken-correspondence', 'item': 'weight recording proxy', 'input': small_in}, False)
@@ -464,6 +490,7 @@ def check_filter(ctx, viol):
     return {'bands': nband, 'coq_cases': len(terms), 'coq_s': cc.coq_seconds, 'cover': cover,
             'jobs': len(jobs), 'masked_jobs': sum(1 for j in jobs if j['mask'] is not None),
             'wset_jobs': sum(1 for j in jobs if j['wave'] == 'wset'), 'toair_jobs': sum(1 for j in jobs if j['toair']),
+            'red_to_blue_jobs': sum(1 for j in jobs if j.get('direction') == 'red-to-blue'),
             'sample': {'coq_case': (terms[0][:400] + ' ...') if terms else None}}
 
 
@@ -488,7 +515,7 @@ def correspond(ctx, proof_ok=True):
         'wave_cases_by_kind': w['kinds'], 'roundtrip_grid_points': w['grid'],
         'flux2ab_values': f['values'], 'flux2ab_enclosure_failures': f['failures'], 'flux2ab_observed_factors': f['factors'],
         'filter_bands': t['bands'], 'filter_cover': t['cover'], 'filter_jobs': t['jobs'], 'filter_masked_jobs': t['masked_jobs'],
-        'filter_wset_jobs': t['wset_jobs'], 'filter_toair_jobs': t['toair_jobs'],
+        'filter_wset_jobs': t['wset_jobs'], 'filter_toair_jobs': t['toair_jobs'], 'filter_red_to_blue_jobs': t['red_to_blue_jobs'],
         'coq_eval_s': round(w['coq_s'] + f['coq_s'] + t['coq_s'], 1),
         'samples': [w['sample'], {'flux2ab_lemma': f['sample_lemma']}, t['sample']],
     })
